@@ -1,6 +1,6 @@
 (* Property C10 -- what is declared non-reloadable is never rewritten.  Statements only. *)
 From Coq Require Import List String NArith ZArith Bool.
-From AM Require Import Rust.Ast Gen.Entry Gen.Anycache Ref.Load Ref.Sys Proofs.SysGrows Proofs.SysStatic Tie.Static Gen.Flags Tie.Dirs.
+From AM Require Import Rust.Ast Gen.Entry Gen.Anycache Ref.Load Ref.Sys Proofs.SysGrows Proofs.SysStatic Proofs.SysGraph Tie.Static Gen.Flags Tie.Dirs Gen.CacheMap Gen.LocalMap Tie.Maps.
 Import ListNotations.
 
 (* 1. The code: an entry is reloadable only if its type is hot-reloaded and the cache has a
@@ -55,3 +55,16 @@ Theorem C10_flag_is_forwarded :
   forwards OnceInitOpt_HOT_RELOADED "U" = true /\
   descriptor_wf Inner_of_asset = true /\ descriptor_wf Inner_of_storable = true.
 Proof. exact hot_reloaded_flag_is_forwarded. Qed.
+
+(* whether a cache has a reloader is decided when it is built: no operation, in any history, gives
+   one to a cache built without (without_hot_reloading, LocalAssetCache, sources that do not support
+   it) or takes it away ... *)
+Theorem C10_reloader_is_fixed_at_construction : forall ops s,
+  has_reloader (fst (run s ops)) = has_reloader s.
+Proof. exact reloader_is_fixed_at_construction. Qed.
+
+(* ... and the one operation of the code that looks at the reloader field besides the loads, clear,
+   only tells an existing reloader to forget its pending changes *)
+Theorem C10_code_clear_neither_makes_nor_drops_a_reloader :
+  cache_clear_wf Gen.CacheMap.AssetCache_clear = true /\ cache_clear_wf Gen.LocalMap.LocalAssetCache_clear = true.
+Proof. exact (conj (proj1 (proj2 (proj2 clear_empties_the_whole_map))) (proj2 (proj2 (proj2 clear_empties_the_whole_map)))). Qed.
